@@ -19,9 +19,11 @@
 #include <fcntl.h>
 #include <sys/mman.h>
 #include <sys/wait.h>
+#include <sys/stat.h>
 #include <pthread.h>
 #include <malloc.h>
 #include <locale.h>
+#include <fenv.h>
 extern "C" {
 #include "xraylib.h"
 }
@@ -580,6 +582,8 @@ int main(int argc, char **argv) {
     std::string loc0 = std::string(setlocale(LC_ALL, NULL)) + "|" + setlocale(LC_NUMERIC, NULL);
     char cwd0[4096]; if (!getcwd(cwd0, sizeof cwd0)) cwd0[0] = 0;
     unsigned long long ck0 = fnv_ranges(ranges);
+    int fe_round0 = fegetround(), fe_exc0 = fegetexcept();      // floating-point environment of the caller: rounding mode, trapping mask
+    mode_t um0 = umask(0); umask(um0);
     int so_saved = dup(1); int so_fd = memfd_create("xrlcall-stdout", 0); fflush(stdout); dup2(so_fd, 1);
     capture_begin();
     std::vector<std::string> res;
@@ -595,8 +599,10 @@ int main(int argc, char **argv) {
     bool errs_ok = true;
     for (auto &ke : kept_errors) { if (errdesc(ke.first) != ke.second) errs_ok = false; xrl_error_free(ke.first); }
     for (auto &r : res) { fputs(r.c_str(), out); fputc('\n', out); }
-    fprintf(out, "STATE\t%llx\t%llx\t%d\t%d\t%d\t%s\t%s\t%zu\t%zu\n", ck0, ck1, loc0 == loc1 ? 1 : 0, strcmp(cwd0, cwd1) == 0 ? 1 : 0, errs_ok ? 1 : 0,
-            serr.empty() ? "-" : hexenc(serr.c_str(), serr.size()).c_str(), sout.empty() ? "-" : hexenc(sout.c_str(), sout.size()).c_str(), kept_errors.size(), ranges.size());
+    mode_t um1 = umask(0); umask(um1);
+    int env_ok = (fegetround() == fe_round0 && fegetexcept() == fe_exc0 && um0 == um1) ? 1 : 0;
+    fprintf(out, "STATE\t%llx\t%llx\t%d\t%d\t%d\t%s\t%s\t%zu\t%zu\t%d\n", ck0, ck1, loc0 == loc1 ? 1 : 0, strcmp(cwd0, cwd1) == 0 ? 1 : 0, errs_ok ? 1 : 0,
+            serr.empty() ? "-" : hexenc(serr.c_str(), serr.size()).c_str(), sout.empty() ? "-" : hexenc(sout.c_str(), sout.size()).c_str(), kept_errors.size(), ranges.size(), env_ok);
   } else if (mode == "fresh") {
     setlocale(LC_ALL, "C.utf8");
     // every call in a child forked from a parent that has never called the library
